@@ -33,7 +33,8 @@ PROPS = {
             "miner side: only validate_extension_declarations / extend_sector_committment of SIMPLE_QA_POWER sectors are modelled (sector record {activation, expiration, power_base_epoch, verified_deal_weight}); partitions, deadlines, fees, deal weight are exercised only on the real actor",
         ],
         "assumptions": [
-            "extension_respects_claims assumes the claim ids declared for a sector (maintain + drop, over all declarations of the message) are distinct; the unchanged code does not enforce it: finding F2 (known_findings.json), proved as a negation witness and replayed on the real actors on every run",
+            "extension_covers_backing_claims / sector_claims_inv_partial assume (i) the claim ids declared for a sector (maintain + drop, over all declarations of the message) are distinct and (ii) the sector's claims are declared with the expiration the sector is extended to; the unchanged code enforces neither: findings F2 and F2b (known_findings.json), each proved as a negation witness and replayed on the real actors on every run",
+            "declared claim ids are claims currently backing the sector (a previously dropped claim of the sector is not re-declared)",
             "onboarding (prove-commit / replica-update) is exercised on the real actors only; the model starts from the sector record read back after activation",
         ],
     },
